@@ -73,8 +73,9 @@ func prepSteps(g *gen) []Step {
 // Enumerated cut space (quick tier). Index -> (target, point, mode, window).
 //
 //	Modify: 6 after-send points (0..5 messages sent) + 7 after-recv points (1..7 responses read) = 13, x 4 modes x 2 windows = 104
-//	Get:    19 points (0..18 responses read: the prepared RIB holds 18 entries, 6 per instance, one table each) x 3 modes x 2 windows = 114
-const cutSpaceModify, cutSpaceGet = 104, 114
+//	Get:    19 points (0..18 responses read: the prepared RIB holds 18 entries, 6 per instance, one table each) x 3 modes x 2 windows
+//	        x {nobody else, a primary whose writes to every instance are waiting for the instance locks when the Get is abandoned} = 228
+const cutSpaceModify, cutSpaceGet = 104, 228
 const CutSpace = cutSpaceModify + cutSpaceGet
 
 func genCutEnum(seed uint64, prop string) *Scenario {
@@ -102,9 +103,10 @@ func genCutEnum(seed uint64, prop string) *Scenario {
 	} else {
 		idx -= cutSpaceModify
 		w, rest := idx%2, idx/2
-		mode, point := rest%3, rest/3
+		mode, rest := rest%3, rest/3
+		writer, point := rest%2, rest/2
 		sc.Cfg.Window = []int{1, 0}[w]
-		sc.Steps = append(sc.Steps, Step{T: "g-cut", Get: &GetSpec{All: true, AFT: int32(spb.AFTType_ALL)}, B: point, Note: getModes[mode]})
+		sc.Steps = append(sc.Steps, Step{T: "g-cut", Get: &GetSpec{All: true, AFT: int32(spb.AFTType_ALL)}, A: writer, B: point, Note: getModes[mode]})
 	}
 	return sc
 }
@@ -136,7 +138,7 @@ func genCut(seed uint64, prop string) *Scenario {
 			} else {
 				gs.NI = g.ni()
 			}
-			sc.Steps = append(sc.Steps, Step{T: "g-cut", Get: gs, B: r.IntN(8), Note: getModes[r.IntN(3)]})
+			sc.Steps = append(sc.Steps, Step{T: "g-cut", Get: gs, A: r.IntN(2), B: r.IntN(8), Note: getModes[r.IntN(3)]})
 			continue
 		}
 		elec[1] += uint64(1 + r.IntN(3))
@@ -686,6 +688,12 @@ func (e *env) cutGet(st *Step) {
 	} else {
 		req.NetworkInstance = &spb.GetRequest_Name{Name: st.Get.NI}
 	}
+	// st.A == 1: a primary is connected whose writes to every instance arrive while the Get is being read,
+	// so that they wait for the instance locks its producer holds at the moment the Get is abandoned
+	var wr *session
+	if st.A == 1 {
+		wr = e.openSession(add128(e.maxElec, 1), e.sc.Cfg.FIBAck)
+	}
 	gc := e.net.OpenGet(req)
 	n := 0
 	for n < st.B {
@@ -694,6 +702,23 @@ func (e *env) cutGet(st *Step) {
 			break
 		}
 		n++
+	}
+	var wops []*spb.AFTOperation
+	if wr != nil {
+		for i, ni := range e.model.SortedNIs() {
+			op := &spb.AFTOperation{Id: 700000 + uint64(1000*e.step+i), NetworkInstance: ni, Op: spb.AFTOperation_ADD, ElectionId: uint128(wr.elec),
+				Entry: &spb.AFTOperation_NextHop{NextHop: &aftpb.Afts_NextHopKey{Index: 3, NextHop: &aftpb.Afts_NextHop{IpAddress: sv(fmt.Sprintf("198.51.100.%d", 1+e.step%250))}}}}
+			e.opSeq++
+			rec := &opRec{op: op, sess: wr.idx, seq: e.opSeq}
+			wr.sent[op.GetId()] = rec
+			e.allOps[op.GetId()] = rec
+			wops = append(wops, op)
+		}
+		wr.mc.Send(&spb.ModifyRequest{Operation: wops})
+		simrt.AwaitQuiescence("writer-queued")
+		if !gc.Stream().Dead() && gc.Stream().QueuedToClient() > 0 {
+			e.probe("Get abandoned while a writer was waiting behind its producer")
+		}
 	}
 	if !gc.Stream().Dead() {
 		e.probe("Get abandoned before its end")
@@ -711,6 +736,31 @@ func (e *env) cutGet(st *Step) {
 		gc.Stream().Cancel()
 	}
 	simrt.AwaitQuiescence("after-get-cut")
+	if wr != nil {
+		// the writes that were waiting behind the abandoned Get must be answered now
+		var rs []*spb.ModifyResponse
+		answered := map[uint64]bool{}
+		for len(answered) < len(wops) {
+			r, err := wr.mc.RecvTimeout(60 * time.Second)
+			if err != nil {
+				e.report("C10", "not-serviceable", "writes that were waiting while a Get was abandoned ("+st.Note+") were never answered", fmt.Sprintf("%v; %s", err, e.sim.Describe()), false)
+				break
+			}
+			rs = append(rs, r)
+			for _, res := range r.GetResult() {
+				// (a result for somebody else's held operation may arrive here too: KF-C06-1, judged elsewhere)
+				if wr.sent[res.GetId()] != nil && (res.GetStatus() == spb.AFTResult_RIB_PROGRAMMED || res.GetStatus() == spb.AFTResult_FAILED) {
+					answered[res.GetId()] = true
+				}
+			}
+		}
+		wr.mc.CloseSend()
+		wr.closed = true
+		simrt.AwaitQuiescence("writer-close")
+		r2, _ := e.drain(wr)
+		e.processResults(wr, append(rs, r2...))
+		wr.dead = true
+	}
 	e.checkpoint(func() {
 		e.compareStateAs("C10", "after abandoned Get")
 		e.checkRefCounts("C10")
